@@ -4,7 +4,10 @@ the property checks it names and requires a VIOLATION naming the expected
 obligation. Also runs the harmless edits and requires silence.
 usage: run.py [name-substring ...]"""
 import json, os, subprocess, sys, shutil, glob, tempfile
-ROOT='/verif/selftest'
+ROOT=os.path.dirname(os.path.abspath(__file__))
+VERIF=os.environ.get('VERIF_DIR', os.path.dirname(ROOT))
+REPO=os.environ.get('VP_RUN_REPO','/repo')
+RESULTS=[]
 def sh(cmd, **kw):
     return subprocess.run(cmd, shell=True, capture_output=True, text=True, **kw)
 def main():
@@ -18,7 +21,7 @@ def main():
         patch=mf[:-5]+'.patch'
         d=tempfile.mkdtemp(prefix='selftest_', dir='/root/scratch')
         try:
-            sh(f'rsync -a --exclude .git /repo/ {d}/')
+            sh(f'rsync -a --exclude .git {REPO}/ {d}/')
             r=sh(f'cd {d} && patch -p1 --no-backup-if-mismatch < {patch}')
             if r.returncode!=0:
                 print(f'{name}: PATCH DOES NOT APPLY\n{r.stdout}{r.stderr}'); bad+=1; continue
@@ -27,11 +30,12 @@ def main():
                 print(f'{name}: DOES NOT COMPILE\n{b.stdout}'); bad+=1; continue
             harmless = '/harmless/' in mf
             props=m['properties']
-            r=sh(f'cd /verif && ./bin/digvc check --property {",".join(props)} --repo {d} --out /root/scratch/selftest_verif_{name}')
+            r=sh(f'cd {VERIF} && ./bin/digvc check --property {",".join(props)} --repo {d} --out /root/scratch/selftest_verif_{name}')
             viol=[l for l in r.stdout.split('\n') if l.startswith('VIOLATION')]
             if harmless:
                 ok = not viol
-                print(f'{name}: {"silent OK" if ok else "FALSE ALARM"}')
+                print(f'{name}: {"silent OK" if ok else "FALSE ALARM"}', flush=True)
+                RESULTS.append((name,'harmless',','.join(props),'silent' if ok else 'FALSE ALARM',m.get('what','')))
                 if not ok:
                     bad+=1; print('\n'.join(v[:230] for v in viol[:8]))
             else:
@@ -39,12 +43,18 @@ def main():
                 hit=[e for e in exp if any(e in v for v in viol)]
                 ok = bool(viol) and (not exp or hit)
                 caught=sorted({v.split('property=')[1].split()[0] for v in viol})
-                print(f'{name}: {"caught by "+",".join(caught) if ok else "MISSED"} ({len(viol)} violation lines; expected {exp})')
+                print(f'{name}: {"caught by "+",".join(caught) if ok else "MISSED"} ({len(viol)} violation lines; expected {exp})', flush=True)
+                RESULTS.append((name,'mutant',','.join(props),('caught by '+','.join(caught)+('; expected obligation named' if hit else '')) if ok else 'MISSED',m.get('what','')))
                 if not ok:
                     bad+=1; print(r.stdout[-800:])
         finally:
             shutil.rmtree(d, ignore_errors=True)
             for p in glob.glob('/root/scratch/selftest_verif_*'): shutil.rmtree(p, ignore_errors=True)
+    if not sel or os.environ.get('SELFTEST_WRITE'):
+        with open(ROOT+'/RESULTS.md','w') as f:
+            f.write('# Self-test of the checks\n\nWritten by selftest/run.py. Mutants are deliberate property-breaking edits of /repo (applied to a scratch copy); each must produce a VIOLATION naming the expected obligation. Harmless edits keep every property; every check must stay silent.\n\n| name | kind | checks run | result | what |\n|---|---|---|---|---|\n')
+            for r in RESULTS: f.write('| '+' | '.join(x.replace('|','/') for x in r)+' |\n')
+            f.write(f'\n{len(RESULTS)} cases, {bad} problems.\n')
     print('selftest:', 'FAILED' if bad else 'ok', f'({bad} problems)')
     sys.exit(1 if bad else 0)
 main()
